@@ -1,7 +1,9 @@
 # Round-0 notes: patch texts that were pre-validated against the unedited repository suite
-# (scratch copies only; nothing here has been applied to /repo).  Data only - (file, old, new) triples.
-# FIXES: candidate `fix:` commits (suite stays 3116/3116 green).
-# SURVIVORS: seeded property-breaking changes the suite does NOT notice (detection targets).
+# (scratch copies only; nothing here has been applied to /repo).  Data only.
+# FIXES: candidate `fix:` commits (suite stays 3116/3116 green) - lists of (file, old, new).
+# MUTANTS_*: seeded changes as used by the vetting scripts: name -> (crate, file, old, new, expected_count)
+#   (first batch: name -> (file, old, new)).  Entries with old=None were applied by a small custom rule
+#   described in DESIGN.md section 9.1.  SUITE_SURVIVORS lists the ones the repository tests do not notice.
 
 FIXES = {
  'F1_reset': [('fuel-merkle/src/binary/merkle_tree.rs', "    pub fn reset(&mut self) {\n        self.nodes.clear();\n", "    pub fn reset(&mut self) {\n        self.nodes.clear();\n        self.leaves_count = 0;\n")],
@@ -96,8 +98,6 @@ FIXES = {
 """)],
 }
 
-# Mutant definition tables as used by the vetting scripts (tuple layouts differ per batch; see comments).
-# from mutants.py
 MUTANTS_MUTANTS = {
  'C23_heap_nofill': ('fuel-vm/src/interpreter/memory.rs', "            self.heap[start..end].fill(0);\n", "            let _ = (start, end);\n"),
  'C13_no_store_merged_leaf': ('fuel-merkle/src/sparse/merkle_tree.rs', """                current_node =
@@ -117,7 +117,6 @@ MUTANTS_MUTANTS = {
  'C21_mlog_err': ('fuel-vm/src/interpreter/executors/opcodes_impl.rs', "lhs == 0 || rhs <= 1,", "lhs == 0 || rhs == 0,"),
 }
 
-# from batch2.py
 MUTANTS_BATCH2 = {
  'C23_realloc_nofill': ('fuel-vm','fuel-vm/src/interpreter/memory.rs', "                self.heap[..end].fill(0);\n", "                let _ = end;\n",1),
  'C23_no_stack_truncate': ('fuel-vm','fuel-vm/src/interpreter/memory.rs', "        self.stack.truncate(new_hp);\n", "",1),
@@ -169,7 +168,6 @@ MUTANTS_BATCH2 = {
     }""", """    pub fn prepare_sign(&mut self) {}""",1),
 }
 
-# from batch3.py
 MUTANTS_BATCH3 = {
  'C34_caller_flag_zeroed': ('fuel-vm','fuel-vm/src/interpreter/flow.rs', "            registers[RegId::HP] = hp;\n", "            registers[RegId::HP] = hp;\n            registers[RegId::FLAG] = 0;\n",1),
  'C28_variable_not_zeroed': ('fuel-vm','fuel-vm/src/interpreter.rs', """            Output::Variable { amount, .. } if revert => {
@@ -210,7 +208,6 @@ MUTANTS_BATCH3 = {
  'C09_rootcalc': ('fuel-merkle','fuel-merkle/src/binary/root_calculator.rs', None, None, 0),
 }
 
-# from batch4.py
 MUTANTS_BATCH4 = {
  'C04_cached_witness_offset': ('fuel-tx','fuel-tx/src/transaction/metadata.rs', ".checked_add(witnesses.size())", ".checked_add(witnesses.size_static().saturating_add(witnesses.as_ref().len()))",1),
  'C10_single_leaf_extra_proof': ('fuel-merkle','fuel-merkle/src/binary/verify.rs', """    if num_leaves <= 1 {
@@ -244,19 +241,33 @@ MUTANTS_BATCH4 = {
             }""",1),
 }
 
-# from batch5.py
-MUTANTS_BATCH5 = {")[0])
+MUTANTS_BATCH5 = {
+ 'C17_ed25519_nonstrict': ('fuel-crypto','fuel-crypto/src/ed25519.rs', "    if pub_key.verify_strict(message, &signature).is_ok() {", "    if ed25519_dalek::Verifier::verify(&pub_key, message, &signature).is_ok() {",1),
+ 'C34_err_leaks': ('fuel-vm','fuel-vm/src/interpreter/flow.rs', """            let hp = registers[RegId::HP];
 
+            registers.copy_from_slice(frame.registers());
+""", """            let hp = registers[RegId::HP];
+            let err = registers[RegId::ERR];
+
+            registers.copy_from_slice(frame.registers());
+            registers[RegId::ERR] = err;
+""",1),
 }
 
-# from batch6.py
-MUTANTS_BATCH6 = {")[0])
-
+MUTANTS_BATCH6 = {
+ 'C24_cb_noowner': ('fuel-vm','fuel-vm/src/interpreter/blockchain.rs', "    memory.write_bytes(owner, a, *coinbase)?;", "    let _ = owner;\n    memory.write_bytes_noownerchecks(a, *coinbase)?;",1),
+ 'C24_srwq_noowner': ('fuel-vm','fuel-vm/src/interpreter/executors/opcodes_impl.rs', "                let dst = memory.write(owner, dst_ptr, 32u64)?;", "                let _ = owner;\n                let dst = memory.write_noownerchecks(dst_ptr, 32u64)?;",1),
+ 'C05_created_state_root_ptr': ('fuel-vm','fuel-vm/src/interpreter/metadata.rs', "                    .and_then(|r| r.contract_created_state_root_offset())", "                    .and_then(|r| r.contract_id_offset())",1),
+ 'C04_storage_slot_offset_past_end': ('fuel-tx','fuel-tx/src/transaction/types/create.rs', "            if idx < self.body.storage_slots.len() {", "            if idx <= self.body.storage_slots.len() {",1),
+ 'C08_reserved_rr_partial': ('fuel-asm','fuel-asm/src/macros.rs', """            let (_, _, imm) = unpack::ra_rb_imm12_from_bytes(self.0);
+            imm.0 == 0""", """            let (_, _, _, imm) = unpack::ra_rb_rc_imm06_from_bytes(self.0);
+            imm.0 == 0""",1),
 }
 
-# from batch7.py
-MUTANTS_BATCH7 = {")[0])
-
+MUTANTS_BATCH7 = {
+ 'C13_fromset_top_nodes_not_stored': ('fuel-merkle','fuel-merkle/src/sparse/merkle_tree.rs', "            node = Node::create_node_on_path(&path, &node, &placeholder);\n            storage.insert(node.hash(), &node.as_ref().into())?;\n", "            node = Node::create_node_on_path(&path, &node, &placeholder);\n",1),
+ 'C22_muldiv_zero_divisor': ('fuel-vm','fuel-vm/src/interpreter/alu/wideint.rs', "unwrap_or(product_div_max)", "unwrap_or_default()",1),
+ 'C34_unpadded_code_in_stack': ('fuel-vm','fuel-vm/src/interpreter/flow.rs', ".checked_add(code_size_padded)", ".checked_add(code_size)",1),
 }
 
 SUITE_SURVIVORS = ['C02_no_vec_limit','C03_msg_gas_not_zeroed','C10_single_leaf_extra_proof','C14_excl_no_keycheck','C15_predicate_owner_no_seed','C17_ed25519_nonstrict','C19_coin_asset_from_messages','C20_gas_mismatch','C21_exp_zero_base','C25_fetch_gt_ssp','C26_mcp_as_mcl','C28_variable_not_zeroed','C29_noop_free','C31_cache_not_cleared','C33_supd_maxlen_off_by_one','C36_blob_zerofill_eq']
